@@ -158,6 +158,101 @@ def cli_argv(mf, req):
     return argv
 
 
+# ---------------------------------------------------------------------------- command-line spellings (C07)
+# What a user can type after `torrentfile edit`: a flag more than once (argparse `store`: the LAST occurrence is the request), the
+# option=value spelling, values that a shell / a formatter / an option parser would treat specially ('~', '~/x', '~user', '$HOME',
+# '%s', a leading dash, '.', '..', blank padding) and the metafile itself spelled relative to the working directory.  The
+# request a command line MEANS is read off the structure below (never by parsing), the judge is C07's frame judge.
+VERBATIM = ["~", "~/x", "~root", "~/", "$HOME", "${HOME}/c", "%s", "%(prog)s", "%d%%", "-x", "-", ".", "..", "./x", "a/../b",
+            "@args", " padded ", " ", "{0}", "\\~", "~nosuchuser/x", "C:\\x", "x~", "a=b", "=", "\"q\"", "--"]
+# The value '--' alone IS in the pool and is the known finding D42 (classified by c07.classify):  On the unchanged tree under CPython 3.12.1
+# `torrentfile edit m.torrent --comment=--` (same for --source=--) writes info.comment = [] (an empty LIST): argparse removes a '--'
+# option argument before the tool sees it and hands over [], which edit_torrent stores.
+VERBATIM_EATEN_BY_ARGPARSE = ["--"]
+VERBATIM_URLS = ["~/t", "~", "$HOME/a", "http://t/%s", "http://t/~u/a", "./a", "../a", "http://t/a=b", "%41"]
+MF_SPELLINGS = ["absolute", "relative", "./relative", "dir/../relative", "absolute with //", "absolute with /./"]
+
+
+def spell_metafile(tmp, name, spelling):
+    """the metafile <tmp>/<name> as the user spells it from the working directory <tmp> (which holds a directory `sub`)"""
+    return {"absolute": os.path.join(tmp, name), "relative": name, "./relative": "./" + name, "dir/../relative": "sub/../" + name,
+            "absolute with //": tmp + "//" + name, "absolute with /./": tmp + "/./" + name}[spelling]
+
+
+def cli_spelling_cases(rng, tier):
+    """[(class names, argv tail with '<metafile>' where the metafile goes, request it means, metafile spelling)]"""
+    out = []
+    scalar = ("comment", "source")
+    lists = ("announce", "url-list", "httpseeds")
+
+    def emit(classes, items, at_end=False, spelling=None):
+        """items: [(field, values, 'sep' | 'eq')] in command-line order; the request = the last item of every field"""
+        req, toks = {}, []
+        for f, vals, how in items:
+            if f == "private":
+                toks.append("--private")
+                req[f] = True
+            elif f in scalar:
+                toks += [CLI_FLAG[f] + "=" + vals[0]] if how == "eq" else [CLI_FLAG[f], vals[0]]
+                req[f] = vals[0]
+            else:
+                if how == "eq":
+                    vals = vals[:1]             # option=value carries exactly one value (argparse takes no further ones)
+                toks += [CLI_FLAG[f] + "=" + vals[0]] if how == "eq" else [CLI_FLAG[f]] + list(vals)
+                req[f] = list(vals)
+        # the metafile: first, or last when the last item cannot swallow it (a scalar or --private)
+        argv = toks + ["<metafile>"] if at_end and items and items[-1][0] in scalar + ("private",) else ["<metafile>"] + toks
+        out.append((classes, argv, req, spelling or MF_SPELLINGS[len(out) % len(MF_SPELLINGS)]))
+
+    def dashy(v):
+        return v.startswith("-")
+
+    # (1) the same flag twice or three times on one command line, other flags in between, both spellings
+    urls = lambda tag, k: [f"http://{tag}{k}/{j}" for j in range(rng.randrange(1, 4))]  # noqa
+    emit(["repeated flag: tracker and web-seed twice, interleaved"],
+         [("announce", ["http://A/1"], "sep"), ("url-list", ["http://W1/1"], "sep"), ("announce", ["http://B/1"], "sep"),
+          ("url-list", ["http://W2/1"], "sep")])
+    emit(["repeated flag: http-seed twice, more values first"],
+         [("httpseeds", ["http://H/1", "http://H/2"], "sep"), ("comment", ["between"], "sep"), ("httpseeds", ["http://H/3"], "sep")], at_end=False)
+    emit(["repeated flag: comment and source twice"],
+         [("comment", ["first comment"], "sep"), ("source", ["S1"], "eq"), ("comment", ["second comment"], "eq"), ("source", ["S2"], "sep")],
+         at_end=True)
+    emit(["repeated flag: private twice"], [("private", [], "sep"), ("announce", ["http://P/1"], "sep"), ("private", [], "sep")], at_end=True)
+    for i in range(6 if tier == "quick" else 120):
+        fields = rng.sample(list(FIELDS), rng.randrange(1, 4))
+        items = []
+        for f in fields:
+            for k in range(rng.choice([2, 2, 3])):
+                how = rng.choice(["sep", "eq"])
+                if f == "private":
+                    items.append((f, [], "sep"))
+                elif f in scalar:
+                    items.append((f, [f"{f} number {k} of case {i}"], how))
+                else:
+                    items.append((f, urls(f[0], k), how))
+        rng.shuffle(items)
+        emit(["repeated flag: random"] + [f"repeated flag: {f}" for f in sorted(fields)], items, at_end=rng.random() < 0.5)
+    # (2) values that must be written verbatim
+    vals = list(VERBATIM) if tier != "quick" else VERBATIM[:8] + rng.sample(VERBATIM[8:], 6)
+    for i, v in enumerate(vals):
+        f, g = (scalar[i % 2], scalar[(i + 1) % 2])
+        how = "eq" if dashy(v) or i % 3 == 0 else "sep"
+        items = [(f, [v], how)]
+        if i % 2:
+            items.append((g, [vals[(i + 3) % len(vals)]], "eq"))
+        emit(["verbatim value: " + f, "verbatim value " + ("option=value" if how == "eq" else "option value"),
+              "verbatim value: " + ("tilde" if "~" in v else "dollar / percent / brace" if any(c in v for c in "$%{") else
+                                    "leading dash" if dashy(v) else "dots / blanks / other")], items, at_end=i % 4 == 1)
+    uvals = list(VERBATIM_URLS) if tier != "quick" else VERBATIM_URLS[:3] + rng.sample(VERBATIM_URLS[3:], 2)
+    for i, v in enumerate(uvals):
+        f = lists[i % 3]
+        items = [(f, [v, "http://plain/1"] if i % 2 else [v], "eq" if i % 3 == 1 else "sep")]
+        if i % 2 == 0:
+            items.append(("comment", ["~/with " + f], "sep"))
+        emit(["verbatim value: " + f, "verbatim value: in a list flag"], items, at_end=False)
+    return out
+
+
 def enumerate_edits(ctx, visit, want_cli=True, skip=None, extra=False):
     """visit(label, request, via, before_raw, after_raw or None, exception or None); extra=True (C07): the falsy / text-bytes bases
        and the non-ASCII values as well"""
